@@ -14,6 +14,10 @@ Protocol commands for the Pauli decomposition (C13).
   pweights N IP              get_pauli_weights(N, IP)
   infl SHAPE DATA W,…        average_pauli_weight (exact value of the sum)
   probs SHAPE DATA           |c_P|^2 of the decomposition (exact)
+
+Any token `layout=…` is an attribute of the *implementation-side* ndarray (memory order,
+strides, writeability, byte order of the same logical matrix); the model sees the
+logical matrix and ignores such tokens.
 -/
 import PauLieVerif.Model.Proto
 import PauLieVerif.Model.Decomp
@@ -69,7 +73,7 @@ def lookAll (ps : List PS) (r : Except Err (List GR)) : String :=
   | .ok w => showList (fun p => showExcept showGR (getWeightInMatrix p w)) ps
 
 def handle (line : String) : Option String :=
-  match line.splitOn " " with
+  match (line.splitOn " ").filter (fun t => !t.startsWith "layout=") with
   | ["decomp", sh, dt] => do
     let a ← arr? sh dt
     return showExcept (showList showGR) (matrixDecomposition a)
